@@ -806,6 +806,21 @@ func (e *Env) evalCall(n ECall) Val {
 		}
 		return specVal("(exists (("+q+" "+sort+")) "+body.T+")", SBool)
 	}
+	if g, ok := u.P.CS.GhostMaps[n.Fun]; ok {
+		argn(1)
+		k := e.eval(n.Args[0])
+		kt := k.T
+		if k.Sort == SIface && g.Struct == SRef {
+			kt = "(val " + k.T + ")"
+		} else if k.Sort == "nil" {
+			kt = "null"
+		} else if k.Sort != g.Struct {
+			e.fail("ghost map %s: key of sort %s, want %s", g.Name, k.Sort, g.Struct)
+		}
+		comp := "GM_" + g.Name
+		u.setCompSort(comp, "(Array "+g.Struct+" "+g.Sort+")")
+		return specVal(sel(u.get(e.st, comp), kt), g.Sort)
+	}
 	if n.Fun == "alls" || n.Fun == "alli" {
 		// alls(h, p, ..., body): universally quantified string (alli: integer) variables
 		if len(n.Args) < 2 {
@@ -940,6 +955,17 @@ func (e *Env) addrOf(x Expr) Val {
 	case EPtrType:
 		v := e.eval(n.X)
 		return v
+	case ECall:
+		if g, ok := u.P.CS.GhostMaps[n.Fun]; ok && len(n.Args) == 1 {
+			k := e.eval(n.Args[0])
+			kt := k.T
+			if k.Sort == SIface && g.Struct == SRef {
+				kt = "(val " + k.T + ")"
+			}
+			comp := "GM_" + g.Name
+			u.setCompSort(comp, "(Array "+g.Struct+" "+g.Sort+")")
+			return Val{T: kt, Sort: "ghostaddr:" + comp + ":" + g.Sort}
+		}
 	case EIdent:
 		// global variable
 		pk := e.pkg
